@@ -311,6 +311,31 @@ func c02Run(t *engine.T, shard string) {
 		if t.Thorough {
 			L = 4
 		}
+		if i == 0 {
+			// line comments inside code and output tags: everything from # to the end of the line - LF, CR or CRLF -
+			// contributes nothing, the tag goes on after it
+			lineSigma := []string{"a", `"`, "'", "#", "`", "<", "%", "{", "}", "(", " ", `\`, "=", "let", "1.2.3", "%>", "<%"}
+			c02Strings(2, lineSigma, func(body string) {
+				for _, eol := range []string{"\n", "\r", "\r\n", "\n\r", "\r\r"} {
+					for _, form := range []struct{ name, src, want string }{
+						{"code-tag", "a<% # " + body + eol + " let x = 1 %>b<%= x %>c", "ab1c"},
+						{"code-tag-tight", "a<% let x = 1 #" + body + eol + "%>b<%= x %>c", "ab1c"},
+						{"in-block", "<%= if (true) { %>A<% # " + body + eol + " %>B<% } %>C", "ABC"},
+						{"output-tag", "a<%= 1 # " + body + eol + " + 2 %>b", "a3b"},
+						{"two", "a<% # " + body + eol + "# " + body + eol + " let x = 1 %>b<%= x %>c", "ab1c"},
+					} {
+						form := form
+						t.Case("line-comment "+form.name+" "+q(form.src), true, func() (string, *engine.Fail) {
+							out, err := Render(form.src, c02Context())
+							if err != nil || out != form.want {
+								return "", engine.Failf("mismatch", "a line comment ends at the end of its line and contributes nothing: expected %q, got %q / %v", form.want, out, err)
+							}
+							return "match", nil
+						})
+					}
+				}
+			})
+		}
 		c02Strings(L-1, c02CommentSigma, func(s string) {
 			body := c02CommentSigma[i] + s
 			if strings.Contains(body, "%>") || strings.Contains(body+" ", "% >") && false {
